@@ -1808,6 +1808,9 @@ class Mode:
                     # a dynamic value where a str is expected: Python checks nothing; the translation covers the case
                     # that it is a str and marks the other as outside the model
                     s_ = self.tr.gensym("s")
+                    if getattr(self.tr, "foreign", None) and self.tr.foreign.get("str"):
+                        # ... the specified objects that are strings (URIRef, BNode, Literal: str subclasses) are passed as the string they are
+                        return f"match obj_str {v} with\n| Some {s_} =>\n{go(rest[1:], acc + [s_])}\n| None => {self.on_exn('OutsideModel')}\nend"
                     return f"match {v} with\n| O_str {s_} =>\n{go(rest[1:], acc + [s_])}\n| _ => {self.on_exn('OutsideModel')}\nend"
                 return go(rest[1:], acc + [self.coerce(v, t, pt, call)])
             return self.expr(ex, env, k_arg)
@@ -1945,6 +1948,30 @@ class Mode:
                 bad(e, "len of this type")
             return self.expr(e.args[0], env, k_len)
         # constructors of dynamic values (dyn.py)
+        if isinstance(f, ast.Name) and f.id in DYN and f.id not in env and f.id in (getattr(tr, "foreign", None) or {}).get("constructors", {}):
+            # a constructor of the library that does more than store its arguments: the specified function (dyn.py), which may raise
+            cs = tr.foreign["constructors"][f.id]
+            if any(isinstance(a, ast.Starred) for a in e.args) or len(e.args) > len(cs["params"]):
+                bad(e, "constructor arguments")
+            given = {kw.arg: kw.value for kw in e.keywords}
+            for kn, kv in cs.get("fixed", {}).items():
+                g_ = given.pop(kn, None)
+                if not (isinstance(g_, ast.Constant) and g_.value is kv):
+                    bad(e, f"{f.id}(..): {kn}={kv} is what the specification describes")
+            actuals = []
+            for i, (pn, pt_) in enumerate(cs["params"]):
+                a = e.args[i] if i < len(e.args) else given.pop(pn, None)
+                actuals.append((a if a is not None else ast.Constant(value=None), tuple(pt_) if isinstance(pt_, list) else pt_))
+            if given:
+                bad(e, "constructor keyword")
+
+            def go_f(rest, acc):
+                if not rest:
+                    ex_, x_ = tr.gensym("e"), tr.gensym("x")
+                    return f"match {cs['function']} {' '.join(acc)} with\n| Exn {ex_} => {self.on_exn(ex_)}\n| Val {x_} =>\n{k(x_, 'any')}\nend"
+                (a_, ft_) = rest[0]
+                return self.expr(a_, env, lambda v, t: go_f(rest[1:], acc + [self.coerce(v, t, ft_, e)]))
+            return go_f(actuals, [])
         if isinstance(f, ast.Name) and f.id in DYN and f.id not in env:
             fs = DYN[f.id]
             if len(e.args) == 1 and isinstance(e.args[0], ast.Starred) and not e.keywords:
@@ -2591,6 +2618,43 @@ UNITS = {
                              {"extend": "TermEncoder", "subclass": "RDFLibTermEncoder", "base_src": "pyjelly/serialize/encode.py",
                               "methods": ["encode_spo", "encode_graph"], "inline": ["get_iri_field", "get_literal_field", "get_triple_field"]},
                              "namespace_declarations", "triples_stream_frames", "quads_stream_frames", "graphs_stream_frames", "stream_frames"]},
+    # the rdflib integration's adapters and flat parser over rdflib's term objects as SPECIFIED (URIRef / BNode: the string given;
+    # Literal: the specified constructor rdflib_Literal, dyn.py) and the tuple classes Triple / Quad / Prefix of the file itself
+    "rdflib_parse": {"src": "pyjelly/integrations/rdflib/parse.py", "ctx": True, "uses": ["lookup_dec", "options", "decode"],
+                     "gen": "RdflibParseGen",
+                     "defines": ["Adapter", "Adapter_options", "Adapter_iri", "Adapter_default_graph", "Adapter_bnode", "Adapter_literal", "Adapter_triple",
+                                 "Adapter_quad", "Adapter_graph_start", "Adapter_graph_end", "Adapter_namespace_declaration", "Adapter_quoted_triple",
+                                 "Adapter_frame"],
+                     "items": [
+                         {"dyn": "obj", "foreign": "rdflib", "module": "rdflib",
+                          "classes": {"URIRef": [("value", "str")], "BNode": [("value", "str")],
+                                      "Literal": [("lex", "str"), ("language", ("opt", "str")), ("datatype", ("opt", "str"))]},
+                          "eq_lower": [("Literal", "language")],
+                          "str": {"URIRef": "value", "BNode": "value", "Literal": "lex"},
+                          "str_valued": ["datatype"],
+                          "constants": {"DATASET_DEFAULT_GRAPH_ID": ("URIRef", "urn:x-rdflib:default")},
+                          "any_names": ["Node", "GraphName"],
+                          "tuple_src": "pyjelly/integrations/rdflib/parse.py", "tuple_classes": ["Triple", "Quad", "Prefix"],
+                          "constructors": {"Literal": {"function": "rdflib_Literal", "fixed": {"normalize": False},
+                                                       "params": [("lexical_or_value", "str"), ("lang", ("opt", "str")), ("datatype", ("opt", "str"))]}}},
+                         {"function": "_adapter_missing", "src": "pyjelly/parse/decode.py"},
+                         {"family": "Adapter", "extra_src": ["pyjelly/parse/decode.py"], "anchor": "RDFLibAdapter",
+                          "classes": ["Adapter", "RDFLibAdapter", "RDFLibTriplesAdapter", "RDFLibQuadsBaseAdapter",
+                                      "RDFLibQuadsAdapter", "RDFLibGraphsAdapter"],
+                          "skip_fields": ["parsing_mode"], "drop_params": ["parsing_mode"], "then_deferred": True,
+                          # (the decoder hands namespace_declaration the IRI already converted by self.iri: a URIRef, annotated `str`)
+                          # and graph_start the decoded graph name: a term, annotated `str` (as is the field that keeps it)
+                          "param_types": {"namespace_declaration.iri": "Any", "graph_start.graph_id": "Any"},
+                          "field_types": {"_graph_id": "Any | None"}},
+                         "parse_triples_stream", "parse_quads_stream", "parse_jelly_flat"],
+                     "functions": {
+                         "parse_triples_stream": {"fixed_none": ["frame_metadata"], "param_types": {"frames": "list[jelly.RdfStreamFrame]"},
+                                                  "returns": "Generator[list[Any | None]]"},
+                         "parse_quads_stream": {"fixed_none": ["frame_metadata"], "param_types": {"frames": "list[jelly.RdfStreamFrame]"},
+                                                "returns": "Generator[list[Any | None]]"},
+                         "parse_jelly_flat": {"unused": ["inp"], "param_types": {"frames": "list[jelly.RdfStreamFrame]", "options": "ParserOptions",
+                                                                                 "logical_type_strict": "bool"},
+                                              "returns": "Generator[Any | None]"}}},
     "encode": {"src": "pyjelly/serialize/encode.py", "ctx": True, "uses": ["lookup_enc", "options"], "gen": "EncodeGen",
                "items": ["split_iri", ("TermEncoder", ["__init__", "start_statement", "_entry_index", "encode_iri_indices", "encode_iri",
                                                        "encode_default_graph", "encode_literal", "set_bnode_field", "encode_quoted_triple"], ["encode_spo", "encode_graph"]),
@@ -2885,7 +2949,9 @@ def run_unit(repo: Path, unit: str) -> tuple["Translator", set[str], list[str]]:
         import dyn
         tr.out.append(f"(* ---- dynamic values ({spec.get('src', 'specified: ' + str(spec.get('foreign')))}): {', '.join(spec['classes'])}; {', '.join(spec.get('singletons', {}))} *)")
         if spec.get("foreign"):
-            dyn.add_foreign_dyn(tr, spec)
+            if spec.get("constructors"):
+                tr.out.append("Notation str_langtag_ok := (s_langtag_ok S).\nNotation str_rdflib_lex := (s_rdflib_lex S).")
+            dyn.add_foreign_dyn(tr, spec, repo)
             tr.dyn_count = len(tr.out)
             tr.foreign = spec
         elif spec.get("imported"):
